@@ -226,8 +226,8 @@ def run(ctx):
                 'non-trivial = >=2 matches, mixed pending codes or a multi-fragment response')
     ctx.assumptions = ['matches carry only pending statuses (a non-pending status supplied by the handler is outside the statement)',
                        'loopback composition of both sides is exercised by C20/C15 style checks, not here']
-    n = 1500 if ctx.thorough else 50
-    parallel(ctx, shard, [{'n': n} for _ in range(16 if ctx.thorough else 6)])
+    n = 1500 if ctx.thorough else 150
+    parallel(ctx, shard, [{'n': n} for _ in range(16 if ctx.thorough else 12)])
 
 
 def replay(case):
